@@ -187,7 +187,7 @@ Alts(ty, F, host) ==
                      y |-> (IF CoseConst(k).hasY THEN Pattern(47, n) ELSE << >>)] : n \in {0, 1, 31, 32}} : k \in kinds}
       [] ty.t = "attStmt" ->
             {[packed |-> FALSE, alg |-> 0, sig |-> << >>, x5c |-> << >>]}
-            \cup {[packed |-> TRUE, alg |-> a, sig |-> Pattern(48, n), x5c |-> << >>] : a \in {ALG_ES256, -257, 0}, n \in {0, 70, 77}}
+            \cup {[packed |-> TRUE, alg |-> a, sig |-> Pattern(48, n), x5c |-> << >>] : a \in {ALG_ES256, ALG_EdDSA, -257, 0}, n \in {0, 63, 64, 65, 70, 71, 72, 77}}
             \cup {[packed |-> TRUE, alg |-> ALG_ES256, sig |-> Pattern(48, 70), x5c |-> <<c>>] :
                      c \in {<< >>, <<Pattern(49, 0)>>, <<DerLike(300)>>, <<Pattern(49, 1024)>>, <<DerChain(600)>>, <<DerChain(1024)>>, <<DerChainCut(40)>>, <<DerChainCut(600)>>, <<DerSeqInt(100)>>}}
             \cup {[packed |-> TRUE, alg |-> ALG_ES256, sig |-> sg, x5c |-> << >>] :
@@ -305,10 +305,14 @@ OneAtATimeOn(s, F, host, base) ==
     {base} \cup UNION {{[base EXCEPT ![ms[i].name] = WrapFor(ms[i], a)] : a \in Alts(InnerTy(ms[i].ty), F, host)} : i \in 1..Len(ms)}
 \* a member of an enumerated type (a sub-command) is a MODE switch: everything else is explored
 \* once per mode, on the minimal base and on the base with every optional member present
+\* (the PIN/UV protocol number is a mode switch as well: two protocols, two sets of rules)
+IsProtocol(m) == m.name \in {"pinUvAuthProtocol", "pinProtocol"}
+ModeValues(m) == IF InnerTy(m.ty).t = "enumU8" THEN InnerTy(m.ty).set
+                 ELSE IF InnerTy(m.ty).t = "u8" THEN {1, 2} ELSE {BN(1), BN(2)}
 PerModeOn(s, F, host, base) ==
     LET ms    == Members(s, F)
-        modes == {i \in 1..Len(ms) : InnerTy(ms[i].ty).t = "enumU8"}
-    IN  UNION {UNION {OneAtATimeOn(s, F, host, [base EXCEPT ![ms[i].name] = WrapFor(ms[i], e)]) : e \in InnerTy(ms[i].ty).set} : i \in modes}
+        modes == {i \in 1..Len(ms) : InnerTy(ms[i].ty).t = "enumU8" \/ (IsProtocol(ms[i]) /\ InnerTy(ms[i].ty).t \in {"u8", "u32", "u64"})}
+    IN  UNION {UNION {OneAtATimeOn(s, F, host, [base EXCEPT ![ms[i].name] = WrapFor(ms[i], e)]) : e \in ModeValues(ms[i])} : i \in modes}
 PerMode(s, F, host) == PerModeOn(s, F, host, MinOf(s, F, host))
 PerModeDeep(s, F, host) == PerMode(s, F, host) \cup PerModeOn(s, F, host, FullOfLows(s, F, host))
 
